@@ -23,10 +23,10 @@ func findDuplicateSlot(slots []*SlotStmt) (string, int) {
 		counts[slot.Name.Value]++
 	}
 
-	// find the first slot name that has a count greater than 1
-	for name, times := range counts {
-		if times > 1 {
-			return name, times
+	// find the first slot, in source order, whose name is used more than once
+	for _, slot := range slots {
+		if times := counts[slot.Name.Value]; times > 1 {
+			return slot.Name.Value, times
 		}
 	}
 
